@@ -115,13 +115,25 @@ Proof. exact ready_spec. Qed.
 Print Assumptions c16_ready_spec.
 
 (* ---------------------------------------------------------------- the serial queue *)
-(* SerialExecutionQueue loses a job that the running job adds after the destructor has queued its sentinel: the worker
-   leaves at the sentinel and the job behind it is destroyed unrun.  (The lane-based queue runs it: c16_can_terminate.) *)
-Theorem c16_serial_drop_refuted :
-  exists ls s, saccepts sinit ls = Some s /\ ss_exited s = true /\ ss_running s = None /\
+(* SerialExecutionQueue (one worker, FIFO, shutdown marker queued by the destructor): when the worker has left, every job
+   ever added - also those the running job added after the destructor began - has finished exactly once. *)
+Theorem c16_serial_exactly_once : forall ls s,
+  saccepts sinit ls = Some s -> ss_exited s = true ->
+  Permutation (ss_finished s) (ss_added s) /\ NoDup (ss_finished s) /\ slost s = [].
+Proof. exact serial_exactly_once. Qed.
+Print Assumptions c16_serial_exactly_once.
+
+Theorem c16_serial_finished_subset : forall ls s,
+  saccepts sinit ls = Some s -> NoDup (ss_finished s) /\ incl (ss_finished s) (ss_added s).
+Proof. exact serial_finished_subset. Qed.
+Print Assumptions c16_serial_finished_subset.
+
+(* Before the repair 6dc9f85 the worker left at the marker and a job queued behind it was destroyed unrun. *)
+Theorem c16_serial_v0_refuted :
+  exists ls s, saccepts_v0 sinit ls = Some s /\ ss_exited s = true /\ ss_running s = None /\
                In 1 (ss_added s) /\ ~ In 1 (ss_finished s) /\ slost s = [1].
-Proof. exact serial_drop_refuted. Qed.
-Print Assumptions c16_serial_drop_refuted.
+Proof. exact serial_v0_refuted. Qed.
+Print Assumptions c16_serial_v0_refuted.
 
 (* ---------------------------------------------------------------- cancellation *)
 Theorem c16_no_spawn_after_cancel : forall n alg pre post s,
@@ -275,6 +287,11 @@ Proof. eexists. split; [vm_compute; reflexivity|]. repeat split; reflexivity. Qe
 
 Example c16_prio_instance : exists s, accepts (init 1 NamePrio) ex_run_prio = Some s /\ terminal s = true.
 Proof. exact ex_run_prio_accepted. Qed.
+
+Example c16_serial_instance :
+  exists s, saccepts sinit [SAdd 0 false; STake 0; SShutdown; SAdd 1 true; SFinish; STake 1; SFinish; SExit] = Some s /\
+            ss_exited s = true /\ ss_finished s = [1; 0].
+Proof. eexists. split; [vm_compute; reflexivity|]. split; reflexivity. Qed.
 
 Example c16_fate_instance : fate_ok (Killed 11 true) = true /\ raw_of_fate (Killed 11 true) = 139 /\ status_of_wait 139 = Failed.
 Proof. repeat split; reflexivity. Qed.
